@@ -550,6 +550,32 @@ class Interp(ExprMixin):
                     names.append(nm)
         return names
 
+    def _mutated_attribute_containers(self, stmts):
+        """attribute expressions (`a.b`, `self.c.d`) whose container is modified in place somewhere in the statements, when
+        every name they start from is bound outside (no store of the root name inside the statements)"""
+        stored = set(self._assigned_names(stmts))
+        out, seen = [], set()
+        for s in stmts:
+            for n in ast.walk(s):
+                tgt = None
+                if isinstance(n, ast.Call) and isinstance(n.func, ast.Attribute) and n.func.attr in self._MUTATORS \
+                        and isinstance(n.func.value, ast.Attribute):
+                    tgt = n.func.value
+                elif isinstance(n, ast.Subscript) and isinstance(n.ctx, ast.Store) and isinstance(n.value, ast.Attribute):
+                    tgt = n.value
+                if tgt is None:
+                    continue
+                root = tgt
+                while isinstance(root, ast.Attribute):
+                    root = root.value
+                if not isinstance(root, ast.Name) or root.id in stored:
+                    continue
+                key = ast.unparse(tgt)
+                if key not in seen:
+                    seen.add(key)
+                    out.append(tgt)
+        return out
+
     def grown_in_running_loop(self, v):
         """(name, loop) when `v` is a container that existed before a loop that is still running and is modified in place in
         its body: what python reads there is the state after the iterations so far, not the value the extractor holds"""
@@ -566,6 +592,20 @@ class Interp(ExprMixin):
         for nm in self._mutated_names(st.body):
             if isinstance(env.get(nm), (PyList, PyDict)):
                 self._growing.append((env[nm], loop, nm))
+        # the same for containers held in attributes (`self.x.append(..)`, `obj.items[k] = v`) that exist before the loop
+        for expr in self._mutated_attribute_containers(st.body):
+            n_ev, n_unk = len(self.events), len(self.unknowns)
+            self._quiet_reads = getattr(self, "_quiet_reads", 0) + 1
+            try:
+                held = self.eval(expr)
+            except Exception:
+                held = None
+            finally:
+                self._quiet_reads -= 1
+                del self.events[n_ev:]
+                del self.unknowns[n_unk:]
+            if isinstance(held, (PyList, PyDict)) and not any(o is held for o, _l, _n in self._growing[n_growing:]):
+                self._growing.append((held, loop, ast.unparse(expr)))
         assigned = self._assigned_names(st.body)
         for n_ in extra_assigned:
             if n_ not in assigned:
